@@ -8,6 +8,7 @@ INVARIANT CallsNeverFail
 INVARIANT ResetIsFresh
 INVARIANT OutputsAsFresh
 INVARIANT ScheduleOK
+INVARIANT ClipIffEnabled
 INVARIANT PeriodWeights
 INVARIANT StepIsSince
 PROPERTY ResetRestoresInit
